@@ -120,7 +120,9 @@ var c38Dims = []c38Dim{
 	{name: "Name", n: 2, class: constClass(clIdentity), set: func(o *c38Set, v int) { o.Name = []string{"verif/c38", "verif/c38-renamed"}[v] }},
 	{name: "ID", n: 2, class: constClass(clIdentity), set: func(o *c38Set, v int) { o.ID = []uint32{38, 39}[v] }},
 
-	{name: "URL", n: 2, class: constClass(clMeta), set: func(o *c38Set, v int) { o.URL = []string{"https://example.com/verif/c38", "https://git.example.org/c38"}[v] }},
+	{name: "URL", n: 2, class: constClass(clMeta), set: func(o *c38Set, v int) {
+		o.URL = []string{"https://example.com/verif/c38", "https://git.example.org/c38"}[v]
+	}},
 	{name: "CommitURLTemplate", n: 2, class: constClass(clMeta), set: func(o *c38Set, v int) {
 		o.CommitT = []string{"{{.Version}}", "https://example.com/c/{{.Version}}"}[v]
 	}},
@@ -534,7 +536,7 @@ func TestVerif_C38(t *testing.T) {
 	defer captureLogs()()
 	os.Unsetenv("CTAGS_COMMAND")
 	os.Unsetenv("SCIP_CTAGS_COMMAND")
-	nBase := rec.N(2, 28)
+	nBase := rec.N(3, 30)
 	for bi := 0; bi < nBase; bi++ {
 		r := rec.Rand(uint64(3800 + bi))
 		corpus := c38Corpus(r)
@@ -546,6 +548,19 @@ func TestVerif_C38(t *testing.T) {
 					if d.baseOK == nil || d.baseOK(base[i]) {
 						break
 					}
+				}
+			}
+		}
+		if bi%3 == 2 {
+			// a base where option values interact: order-sensitive LargeFiles patterns (the
+			// last matching pattern wins, "!" negates) next to a SizeMax that the exempted
+			// files exceed, so that a change of the pattern ORDER alone changes the content
+			for i, d := range c38Dims {
+				switch d.name {
+				case "LargeFiles":
+					base[i] = 3 + r.IntN(2)
+				case "SizeMax":
+					base[i] = 1 + r.IntN(2)
 				}
 			}
 		}
